@@ -113,14 +113,29 @@ Section Spec.
         ctor a d (if n <=? capN then Some (clean_list (repeatN v n)) else None) BuilderFull r a'
     | OFromElem d v => ctor a d (Some (clean_vec (repeatN v capN))) BuilderFull r a'
     | ODefaultVec d => ctor a d (Some (clean_vec (repeatN (edefault ek) capN))) BuilderFull r a'
+    (* SSZ decoding. First conjunct (strictness): the only answers are success and EDecode, and success
+       means that the input is the canonical serialization of an in-bounds sequence of well-formed values,
+       which is then stored. Second conjunct (completeness and exactness): whenever the input is the
+       canonical serialization of such a sequence l, decoding succeeds and stores exactly l. Together:
+       decoding succeeds if and only if the input is the serialization of an admissible sequence, and then
+       yields exactly that sequence; in particular the answer RErr EDecode is allowed only when no
+       admissible preimage exists (Refine.spec_ssz_list_err / spec_ssz_vec_err), and the specification is a
+       function of (a, b) (Refine.spec_det). The side condition of the second conjunct is the limit of
+       the 4-byte offsets: for a variable-size kind and an input of 4 GiB or more it stays open. *)
     | OSszList d b =>
         if (nregs <=? d)%nat then bad a r a' else
-        (exists l, serialize ek l = b /\ Forall valid l /\ lenN l <= capN /\ r = ROk /\ a' = aset a d (Some (clean_list l)))
-        \/ (r = RErr EDecode /\ a' = a)
+        ((exists l, serialize ek l = b /\ Forall valid l /\ lenN l <= capN /\ r = ROk /\ a' = aset a d (Some (clean_list l)))
+         \/ (r = RErr EDecode /\ a' = a)) /\
+        ((efixed ek = None -> lenN b < 2 ^ 32) ->
+         forall l, serialize ek l = b -> Forall valid l -> lenN l <= capN ->
+                   r = ROk /\ a' = aset a d (Some (clean_list l)))
     | OSszVec d b =>
         if (nregs <=? d)%nat then bad a r a' else
-        (exists l, serialize ek l = b /\ Forall valid l /\ lenN l = capN /\ r = ROk /\ a' = aset a d (Some (clean_vec l)))
-        \/ (r = RErr EDecode /\ a' = a)
+        ((exists l, serialize ek l = b /\ Forall valid l /\ lenN l = capN /\ r = ROk /\ a' = aset a d (Some (clean_vec l)))
+         \/ (r = RErr EDecode /\ a' = a)) /\
+        ((efixed ek = None -> lenN b < 2 ^ 32) ->
+         forall l, serialize ek l = b -> Forall valid l -> lenN l = capN ->
+                   r = ROk /\ a' = aset a d (Some (clean_vec l)))
     | OSerdeList d vs => ctor a d (if lenN vs <=? capN then Some (clean_list vs) else None) ESerde r a'
     | OSerdeVec d vs => ctor a d (if lenN vs =? capN then Some (clean_vec vs) else None) ESerde r a'
     | OGet i idx | OCowRead i idx => with_reg a i (fun x => r = RVal (nthN (a_vals x) idx) /\ a' = a) r a'
